@@ -61,6 +61,8 @@ def fmt_case(c):
         lines.append("chunkstyle %s" % c["chunkstyle"])
     if c.get("ctor"):
         lines.append("ctor %s" % c["ctor"])
+    if c.get("gap") is not None:
+        lines.append("gap %d" % c["gap"])
     if c.get("c0") is not None:
         lines.append("c0 %d" % c["c0"])
     if c.get("multi"):
@@ -341,7 +343,7 @@ def stream(prop, seed, n, mode="wrapping"):
             if prop == "C13" and c["env"]["kind"] == "slice":
                 c["env"]["adaptor"] = r.choice(["cloned", "copied"])
                 c["env"]["owning"] = False
-        elif prop in ("C02", "C03") and r.chance(1, 8):
+        elif prop in ("C02", "C03", "C04") and r.chance(1, 8):
             # indices and chunk contract of what is delivered before and after a panic of the wrapped iterator or a closure
             c = gen_conc(r, cid, dict(next=4, chunk=3, buf=3, loop=1, loopcrash=1), mode=mode, crash=True)
         elif prop in ("C01", "C02", "C03", "C04"):
